@@ -351,10 +351,35 @@ def rule_5(ctx):
     ctx.floor(3, 'closed-form shapes')
 
 
+def rule_6(ctx):
+    """NPV and SLN as the evaluator calls them (registered wrapper, casts, body) on witness cash flows; a flow of exactly 0 is a
+    flow (it occupies a period), also when it comes first or last."""
+    from . import values as V
+    f = V.registered(ctx, 'NPV')
+
+    def oracle(rate, flows):
+        return sum(v / (1 + rate) ** (i + 1) for i, v in enumerate(flows))
+    for rate, flows in ((0.1, [-100, 0, 121]), (0.1, [-10000, 3000, 0, 4200, 6800]), (0.05, [0, 0, 500]), (0.08, [100, 200, 0]), (0.1, [-100, 110])):
+        out = V.call(ctx, 'NPV', [V.num(rate)] + [V.num(v) for v in flows])
+        got = V.norm(out.value) if out.end == 'return' else f'<{out.end} {out.value!r}>'
+        want = oracle(rate, flows)
+        ok = isinstance(got, tuple) and got[0] == 'Number' and isinstance(got[1], (int, float)) and abs(got[1] - want) <= 1e-9 * max(1.0, abs(want))
+        ctx.expect(ok, f.node, f'NPV({rate}, {flows})',
+                   f'NPV({rate}, {", ".join(map(str, flows))}) gives {got!r}, expected {want!r} = sum of flow_i / (1+rate)^i: every listed flow, a zero '
+                   'included, occupies one period')
+    g = V.registered(ctx, 'SLN')
+    out = V.call(ctx, 'SLN', [V.num(10000), V.num(1000), V.num(9)])
+    got = V.norm(out.value) if out.end == 'return' else f'<{out.end} {out.value!r}>'
+    ctx.expect(isinstance(got, tuple) and got[0] == 'Number' and abs(got[1] - 1000.0) < 1e-9, g.node, 'SLN(10000, 1000, 9)',
+               f'SLN(10000, 1000, 9) gives {got!r}, expected 1000 = (cost - salvage) / life')
+    ctx.floor(6, 'NPV / SLN witnesses')
+
+
 RULES = [
     ('C20.1', 'library binding; cash flows not filtered by truthiness', rule_1),
     ('C20.2', 'parameters influence every returned value', rule_2),
     ('C20.3', 'reflected-operator hazard', rule_3),
     ('C20.4', 'guards', rule_4),
     ('C20.5', 'shape of the closed forms', rule_5),
+    ('C20.6', 'NPV / SLN on witness cash flows through the registered wrapper (a zero flow occupies a period)', rule_6),
 ]
